@@ -247,6 +247,8 @@ class Ctx:
             return None, o + e
         return os.path.join(self.tmp, out), o + e
 
+    FORKMAIN = ['-Dmain=harness_main', os.path.join(VERIF, 'harness', 'forkmain.c')]   # one fresh process image per history (harness/forkmain.c)
+
     def cc_harness(self, out, sources, flags=(), what='harness', loses=None, **kw):
         """Build a harness that also observes library internals.  If it does not compile (representation changed) rebuild
         it with -DVERIF_BLACKBOX (public interface only; the harness prints `?` for what it cannot see) and record the
